@@ -225,11 +225,22 @@ impl<'a> AnyCache<'a> {
         let handle = self.get_cached_untyped(&id, typ)?;
 
         let load_asset = || (typ.inner.load)(self, id);
-        let (entry, deps) = if let Some(reloader) = self.reloader() {
-            records::record(reloader, load_asset)
-        } else {
-            log::warn!("No reloader in hot-reloading context");
-            (load_asset(), Dependencies::empty())
+        let load_asset = || {
+            if let Some(reloader) = self.reloader() {
+                records::record(reloader, load_asset)
+            } else {
+                log::warn!("No reloader in hot-reloading context");
+                (load_asset(), Dependencies::empty())
+            }
+        };
+        // A panic here would kill the hot-reloading thread and leave the
+        // caller of `hot_reload` waiting forever
+        let (entry, deps) = match std::panic::catch_unwind(std::panic::AssertUnwindSafe(load_asset)) {
+            Ok(res) => res,
+            Err(_) => {
+                log::warn!("Panic while reloading \"{}\"", handle.id());
+                return None;
+            }
         };
         match entry {
             Ok(e) => {
